@@ -219,6 +219,25 @@ func propRegistry() map[string]PropSpec {
 		"content types text/html (matches the default filter) and image/png (does not); client Accept-Encoding from a fixed list of plain coding lists (q-values, '*' and tokens merely containing 'br'/'gzip' as a substring are outside the claim)",
 	}
 	add(PropSpec{
+		ID: "C12",
+		Harnesses: []HarnessSpec{
+			{Pkg: "compress", Fn: "Harness_C12_gzip_wrapper", Init: []string{"util", "compress"}, Reach: []string{"C12.gzip.ok", "C12.gzip.write-error"}, EngineOnly: true},
+			{Pkg: "compress", Fn: "Harness_C12_brotli_wrapper", Init: []string{"util", "compress"}, Reach: []string{"C12.br.ok", "C12.br.write-error"}, EngineOnly: true},
+			{Pkg: "compress", Fn: "Harness_C12_service_levels", Init: []string{"util", "compress"}, Reach: []string{"C12.levels.end"}, EngineOnly: true},
+			{Pkg: "compress", Fn: "Harness_C12_lz4_buffer", Init: []string{"util", "compress"}, Reach: []string{"C12.lz4.end"}, EngineOnly: true},
+			{Pkg: "compress", Fn: "Harness_C12_dispatch", Init: []string{"util", "compress"}, Reach: []string{"C12.dispatch.end"}, EngineOnly: true},
+		},
+		Explanation: "Thin claim. The core of C12 - that the gzip, brotli, lz4, zstd and snappy encoders/decoders are exact inverses on every byte string and robust on malformed streams - is a statement about five third-party codecs whose loops grow with the input (match finders, entropy coders; table driven, tens of thousands of lines): far beyond what can be encoded and bit-blasted here, so it is NOT decided. What is decided, by symbolic execution of pike's own wrappers with the library writers/readers replaced by ghost-state stubs: the level handed to gzip.NewWriterLevel / brotli.NewWriterLevel for every int level (1..9 resp. 1..11 kept, everything else the documented default, never rejected), that the whole input is written exactly once, that the stream is finalised (Close) before the buffer is read, that a write error is returned, that doLZ4Decode decodes every valid block up to LZ4's 255x format bound, and that Decompress dispatches each documented encoding name to its decoder, identity for \"\" and an error otherwise.",
+		Assumptions: []string{
+			"NOT CLAIMED: round trips through the real codecs, compatibility with standard decoders, behaviour on malformed streams (third-party library code)",
+			"writer stub contract: NewWriterLevel errs iff level outside [-2,9] (gzip); Write emits a partial stream, Close emits the trailer; a stream is complete iff it was read after Close",
+			"lz4 stub contract: UncompressBlock succeeds on a valid block iff len(dst) >= decoded length; valid blocks exist for every decoded length <= 255*len(src)",
+			"input <= 4 bytes symbolic (the wrappers do not look at the content)",
+		},
+		Encoded: []string{"compress.doGzip", "compress.gzipFn", "compress.doBrotli", "compress.brotliEncode", "compress.doLZ4Decode", "compress.(*compressSrv).Decompress", "compress.(*compressSrv).SetLevels", "compress.(*compressSrv).GetLevel", "compress.(*compressSrv).Gzip", "compress.(*compressSrv).Brotli", "compress.NewService"},
+		Bounds:  map[string]string{"level": "every int", "lz4 decoded length": "0..255*len(src), len(src) 1..3"},
+	})
+	add(PropSpec{
 		ID: "C13",
 		Harnesses: []HarnessSpec{
 			{Pkg: "cache", Fn: "Harness_C13_table", Init: initCache, Reach: []string{"C13.row1-stored-br", "C13.row2-stored-gzip", "C13.row3to6"}, EngineOnly: true},
